@@ -58,6 +58,19 @@ func newSignalHandler() *signalHandler {
 func (o *signalHandler) addSignalUser(userID uint64, signalID, messageID uint32,
 	from Channel) error {
 
+	// refuse a duplicate id before touching the connection: the
+	// registration (and the connection handler) of the existing
+	// user must stay untouched. Requests for one object are
+	// serialised by its mailbox.
+	o.signalsMutex.RLock()
+	for _, user := range o.signals {
+		if user.userID == userID {
+			o.signalsMutex.RUnlock()
+			return fmt.Errorf("user %d already exists", userID)
+		}
+	}
+	o.signalsMutex.RUnlock()
+
 	newUser := signalUser{
 		signalID:  signalID,
 		messageID: messageID,
@@ -78,14 +91,6 @@ func (o *signalHandler) addSignalUser(userID uint64, signalID, messageID uint32,
 	newUser.contextID = e.MakeHandler(f, q, cl)
 
 	o.signalsMutex.Lock()
-
-	for _, user := range o.signals {
-		if user.userID == userID {
-			o.signalsMutex.Unlock()
-			user.context.EndPoint().RemoveHandler(user.contextID)
-			return fmt.Errorf("user %d already exists", userID)
-		}
-	}
 	o.signals = append(o.signals, newUser)
 	o.signalsMutex.Unlock()
 	return nil
